@@ -43,7 +43,7 @@ def strip(n):
         if k == "Cast" and n.get("e") is not None:
             n = n["e"]
             continue
-        if k in ("Construct", "TempObj") and len(n.get("a", [])) == 1 and n["a"][0].get("k") not in ("Int", "Float"):
+        if k in ("Construct", "TempObj") and len(n.get("a", [])) == 1 and n["a"][0].get("k") in ("Ref", "Member", "Index", "Cast"):
             a = n["a"][0]
             # copy construction of an lvalue of the same class
             n = a
@@ -196,3 +196,53 @@ def stmts(n):
             out.extend(stmts(s))
         return out
     return [n]
+
+
+def live_must_pass(fn, pred):
+    """like CFG.must_pass, but edges of `if constexpr` whose branch was discarded at instantiation are dead:
+    every live path entry -> normal exit passes a statement satisfying pred"""
+    cfg = fn.cfg
+    dead = set()
+    for b in cfg.blocks.values():
+        if b.get("term") == "IfStmt" and b.get("term_id") is not None and len(b.get("succ", [])) == 2:
+            n = fn.by_id(b["term_id"])
+            if n is not None and n.get("constexpr"):
+                if n.get("else") is None and n.get("then") is not None:
+                    dead.add((b["id"], 1))      # condition was true (or no else written: then the false edge skips, keep it)
+                    if not _has_else_in_source(n):
+                        dead.discard((b["id"], 1))
+                elif n.get("then") is None:
+                    dead.add((b["id"], 0))
+    marked = set()
+    for b in cfg.blocks.values():
+        for e in b["el"]:
+            n = fn.by_id(e)
+            if n is not None and pred(n):
+                marked.add(b["id"])
+                break
+    seen = set()
+    st = [cfg.entry]
+    while st:
+        b = st.pop()
+        if b in seen or b in marked:
+            continue
+        seen.add(b)
+        for k, s2 in enumerate(cfg.blocks[b].get("succ", [])):
+            if s2 is None or (b, k) in dead:
+                continue
+            st.append(s2)
+    bad = []
+    for t in cfg.normal_exit_preds():
+        if t in seen and any(s2 == cfg.exit and (t, k) not in dead for k, s2 in enumerate(cfg.blocks[t].get("succ", []))):
+            bad.append(t)
+    return not bad, bad
+
+
+def _has_else_in_source(n):
+    # an instantiated `if constexpr` drops the discarded branch; the plugin marks nothing about the source form, so a
+    # missing else is read as "condition true, else discarded" only when the then-branch ends every path (return/abort);
+    # otherwise the false edge is kept (conservative: more paths)
+    for x in walk(n.get("then")):
+        if x.get("k") == "Return" or x.get("noreturn"):
+            return True
+    return False
